@@ -30,6 +30,11 @@ def main():
         sh(["git", "-C", "/repo", "worktree", "add", "--detach", SCR, "HEAD"])
         rc, out = sh(["git", "-C", SCR, "apply", str(d / "patch.diff")])
         if rc != 0:
+            # a later fix: commit touched neighbouring lines: try a three-way merge of the change
+            rc, out = sh(["git", "-C", SCR, "apply", "--3way", str(d / "patch.diff")])
+            if rc == 0 and "<<<<<<<" in sh(["git", "-C", SCR, "diff"])[1]:
+                rc = 1
+        if rc != 0:
             rows.append((d.name, "patch-does-not-apply", ""))
             print(d.name, "patch-does-not-apply", flush=True)
             continue
